@@ -110,7 +110,7 @@ def c04_units():
     return out
 
 
-CHILD_MODULES = {}
+CHILD_MODULES = {"src/beta.rs": "child_beta.rs", "src/multi/dirichlet.rs": "child_dirichlet.rs"}
 
 
 def plain(hid, mod, prop, target, file, schema, obligation, kind="proof", tier="quick", timeout=600, solver=None, replay=None, bound=None, extra=None, stubs=None):
@@ -210,8 +210,43 @@ C07_UNITS = [
 ]
 
 
+WEIGHT_UNITS = [
+    plain("weight_checked_add_assign_%s" % t, "weights", ["C09", "C10", "C04"], "rand::distr::weighted::Weight::checked_add_assign for %s" % t, "(rand 0.10.2) src/distr/weighted/mod.rs",
+          [("a", t), ("b", t)], "Ok iff a + b fits; then *self == a + b; else *self unchanged - the contract the Verus tree proof ASSUMES, discharged on rand's real impl for all pairs",
+          tier="quick" if t in ("u64", "i32") else "thorough")
+    for t in ("u8", "u16", "u32", "u64", "u128", "usize", "i8", "i16", "i32", "i64", "i128", "isize")
+] + [
+    dict(plain("kf_tree_f32_rounding_panics", "weights", ["C10"], "WeightedTreeIndex<f32>::try_sample", "src/weighted/weighted_tree.rs", [],
+               "pinned known finding: WeightedTreeIndex::<f32>::new([2.5449841e19, 3.5183273e16]) is_valid() but try_sample panics for word 0xffffffff"), expect="refuted"),
+    dict(plain("kf_tree_f32_subnormal_total_panics", "weights", ["C10"], "WeightedTreeIndex<f32>::try_sample", "src/weighted/weighted_tree.rs", [],
+               "pinned known finding: WeightedTreeIndex::<f32>::new([6.32e-43, -0.0]) is_valid() but try_sample panics for word 4293766655"), expect="refuted"),
+]
+
+
+def child(hid, modpath, prop, target, file, schema, obligation, **kw):
+    u = plain(hid, "x", prop, target, file, schema, obligation, **kw)
+    u["harness"] = "%s::verif_child::%s" % (modpath, hid)
+    return u
+
+
+C11_UNITS = [
+    child("c11_dirichlet_new_len2", "multi::dirichlet", ["C11", "C04"], "Dirichlet::new", "src/multi/dirichlet.rs", [("alpha", "f64"), ("alpha1", "f64")],
+          "every 2-vector (all bit patterns): Err iff a documented per-entry condition holds, variant valid, Ok => sample_len()==2 and Beta method iff all alpha <= 0.1; no panic",
+          kind="bounded", bound="alpha.len() == 2", timeout=1800, stubs=["sqrt_c"]),
+    child("c11_dirichlet_new_too_short", "multi::dirichlet", ["C11", "C04"], "Dirichlet::new", "src/multi/dirichlet.rs", [], "lengths 0 and 1 (any content) -> Err(AlphaTooShort)", timeout=600),
+    child("c11_from_beta_structure_len3", "multi::dirichlet", ["C11"], "DirichletFromBeta::new", "src/multi/dirichlet.rs", [("a0", "f64"), ("a1", "f64"), ("a2", "f64")],
+          "n = 3, all alpha in [1e-3, 0.1]^3: sampler j is Beta with parameter set {alpha_j, right-to-left float sum of alpha_{j+1..}} bit for bit; n-1 samplers; sample_len()==3",
+          kind="bounded", bound="alpha.len() == 3", timeout=3600, tier="thorough", stubs=["sqrt_c"]),
+    child("c11_sample_to_slice_wrong_len_panics", "multi::dirichlet", ["C11"], "Dirichlet::sample_to_slice", "src/multi/dirichlet.rs", [],
+          "output.len() != sample_len() panics (should_panic harness)", kind="bounded", bound="one concrete instance (len 2 distribution, len 3 buffer)", timeout=900, stubs=["sqrt_c"]),
+]
+C11_UNITS[-1]["should_panic"] = True
+C11_UNITS += [
+]
+
+
 def all_units():
-    return c04_units() + C04_EXTRA + C03_UNITS + C06_UNITS + C07_UNITS
+    return c04_units() + C04_EXTRA + C03_UNITS + C06_UNITS + C07_UNITS + WEIGHT_UNITS + C11_UNITS
 
 
 # ------------------------------------------------------------------ native replay dispatcher (generated Rust)
@@ -259,3 +294,10 @@ def gen_replay_ctor():
         arm(cid, fl, args, call, post)
     L += ["        _ => None,", "    }", "}", ""]
     return "\n".join(L)
+
+
+# ------------------------------------------------------------------ concrete native units (single inputs that close a stated gap)
+NATIVE_UNITS = [
+    {"id": "native_hypergeometric_new_N0", "property": ["C04"], "args": ["ctor", "hypergeometric_new", "-", "u64:0", "u64:0", "u64:0"],
+     "what": "Hypergeometric::new(0, 0, 0) returns without panicking and satisfies its contract (closes the `requires N >= 1` of the Verus VF-mode unit)"},
+]
